@@ -1467,6 +1467,9 @@ class TTNS(TTNBase):
             order = self.basis.basis_list
         indices_up = []
         for basis in order:
+            # the size-1 index of a dummy basis set is not part of the contraction, same as in `TTNO.todense`
+            if isinstance(basis, BasisDummy):
+                continue
             indices_up.append(("down", str(basis.dofs)))
         output_indices = indices_up
         args.append(output_indices)
